@@ -175,13 +175,18 @@ def _mark_cli(cases, r2):
         flags = ["--no-edge"] + [f for f in ("--no-gc", "--no-rmask") if fasta or r2.random() < .5]
         r2.shuffle(flags)
         i["cli"] = True
+        if op == "flat_reference":
+            i["hapX"] = (n // every) % 2 == 0   # few flat cases: alternate, so that -y and its absence both occur
+        # the spellings of the sex cycle over the cases that give one (the capitalised ones need the .lower())
+        sex = i.get("given") if op == "reference" else ("true" if i.get("female") else "false") if op == "reference_on" else None
+        nth_sex = seen["sex" + str(sex)] = seen.get("sex" + str(sex), -1) + 1
         i["cli_opts"] = {
             "form": r2.choice(["t_a", "a_t", "mixed", "dir"]),
             "opts_first": r2.random() < .5,
             "y": r2.choice(["-y", "--male-reference", "--haploid-x-reference"]),
             "x": r2.choice(["-x", "--sample-sex", "-g", "--gender"]),
-            "sex_f": r2.choice(["f", "x", "female", "Female"]),
-            "sex_m": r2.choice(["m", "y", "male", "Male"]),
+            "sex_f": ["Female", "f", "x", "female"][nth_sex % 4],
+            "sex_m": ["Male", "m", "y", "male"][nth_sex % 4],
             "o": r2.choice(["-o", "--output"]),
             "long_flat": r2.random() < .5,
             "flags": flags if op == "reference" else [],   # corrections-on cohorts: no flag at all (defaults)
